@@ -16,6 +16,7 @@ LEVEL_TEXT = ("Who-may-write and shape analysis on the MIR: (E5) GraphNode.outgo
 LEVEL_NOTE = ("Not decided: the value-level statements over all histories (that at most one edge per pair is ever *observed*, equal value "
               "accepted / different rejected as observed); the check establishes the invariants of the only mutators.")
 LEVEL_TEXT += (' Results returned by closures (e.g. per-attribute results inside an iterator chain) are consumed only by error-keeping adaptors — `last`, `flat_map`, `for_each` and the like are violations; (E5.keep) attribute lists and deferred statements are never de-duplicated, filtered or reordered.')
+LEVEL_TEXT += (' (E5.key) deferred statements and attributes are never identified by their rendered text.')
 
 
 def run(prog, rep):
@@ -31,6 +32,7 @@ def run(prog, rep):
                           "attribute values change only through Attributes::add")
     rep.floor("E5", n, 4, "container mutation sites")
     e5.no_dropped_elements(prog, rep)
+    e5.no_text_keyed_tables(prog, rep)
     # whole-attribute-set assignments
     for owner in ("tsg::graph::Edge", "tsg::graph::GraphNode"):
         for f, kind, op, where, b, st in e5.field_mutations(prog, owner, "attributes"):
